@@ -464,8 +464,9 @@ def _decode_kw(kw):
     return out
 
 
-def exec_op(op, slots):
-    """Execute one op; return (outcome, mutated_args)."""
+def exec_op(op, slots, keep=None):
+    """Execute one op; return (outcome, mutated_args).  With `keep`, returned objects are
+    retained together with their canonical form at return time."""
     import dateparser
 
     kind = op["op"]
@@ -511,6 +512,8 @@ def exec_op(op, slots):
         else:
             raise RuntimeError("unknown op " + kind)
         out = ["ok", canon_result(val)]
+        if keep is not None and val is not None and not isinstance(val, (str, int)):
+            keep.append((val, copy.deepcopy(out[1])))
     except Exception as e:  # noqa
         out = ["exc", type(e).__name__]
     kw_cmp = {k: v for k, v in kw.items() if k in snap}
@@ -545,9 +548,13 @@ def run_history(p):
     outs = []
     evictions = 0
     states = []
+    kept = []
     for op in p["ops"]:
         before = state_digest()
-        o, mut = exec_op(op, slots)
+        nk = len(kept)
+        o, mut = exec_op(op, slots, kept)
+        if len(kept) > nk:
+            kept[-1] = kept[-1] + (len(outs),)
         after = state_digest()
         if before and after and any(a < b for a, b in zip(after["caches"], before["caches"])):
             evictions += 1
@@ -556,7 +563,15 @@ def run_history(p):
         outs.append({"out": o, "mut": mut})
         if after:
             states.append(seeds.digest(after))
-    return {"outs": outs, "evictions": evictions, "states": states, "final_state": state_digest()}
+    # an object handed to the caller belongs to the caller: later calls must not change it
+    changed_later = []
+    for val, canon0, idx in kept:
+        try:
+            if canon_result(val) != canon0:
+                changed_later.append(idx)
+        except Exception:  # noqa
+            changed_later.append(idx)
+    return {"outs": outs, "evictions": evictions, "states": states, "final_state": state_digest(), "changed_later": changed_later}
 
 
 def run_single(p):
@@ -791,6 +806,11 @@ def main(args):
                 continue
             evictions += val["evictions"]
             state_set.update(val["states"])
+            for idx in val.get("changed_later", []):
+                opx = pl["ops"][idx]
+                sigx = {"call": opx["op"], "mutation": "a previously returned object changed during a later call"}
+                rep.violation(sigx, {"run": "h%d-ret%d" % (hi, idx), "seed": seed, "zone": pl["zone"], "prefix": pl["ops"][:idx], "op": opx, "later": pl["ops"][idx + 1:], "kind": "returned-object"},
+                              "the object returned by call %d (%s) was modified by a later call of the same history" % (idx, json.dumps(_brief(opx), default=repr)[:200]))
             seen_cfg = set()
             hist_nontrivial = False
             classes = []
